@@ -116,6 +116,7 @@ structure DefOK (st : LState) (d : Definition) : Prop where
       (if d.kind = .inputObject then locInputFieldDefinition else locFieldDefinition) none = .pass
   members : ∀ m ∈ d.types, ∃ t, st.types.lookup m = some t ∧ t.kind = .object
   interfaces : ∀ i ∈ d.interfaces, ∃ intf, st.types.lookup i = some intf ∧ intf.kind = .interface
+  implements : ∀ i ∈ d.interfaces, validateImplements st d i = .pass
   kindSpecific : validateKindSpecific st d = .pass
   dirs : validateDirectives st d.dirs d.kind.render none = .pass
 
@@ -126,7 +127,7 @@ theorem validateDefinition_pass {st : LState} {d : Definition} (h : validateDefi
   refine ⟨fun f hf' => validateName_pass (hf f hf').1, hu,
     fun hb => by rw [hb] at hn; exact validateName_pass hn,
     fun f hf' => validateTypeRef_pass (hf f hf').2.1, fun f hf' => (hf f hf').2.2.1,
-    fun f hf' => (hf f hf').2.2.2, ?_, fun i hi' => validateImplements_pass (hi i hi'), hk, hd⟩
+    fun f hf' => (hf f hf').2.2.2, ?_, fun i hi' => validateImplements_pass (hi i hi'), hi, hk, hd⟩
   intro m hm'
   have := hm m hm'
   unfold LState.type? at this
